@@ -588,4 +588,38 @@ Proof.
   - eapply follow_of_local; eauto.
 Qed.
 
+(* ---------- in terms of the operation alphabet ---------- *)
+Variable root_attrs : list (N * cdata).
+
+Lemma move_models h mv w w' r :
+  e_move_element_here T tab_en check_fn LATEST h mv w = Val (OK r, w') ->
+  exists m1 m2, model_of h w = Val (OK m1, w) /\ model_of mv w = Val (OK m2, w).
+Proof.
+  intros H. unfold e_move_element_here in H. destruct (h =? mv); [discriminate H|]. wk H. wk H. eauto.
+Qed.
+Lemma move_at_models h mv pos w w' r :
+  e_move_element_here_at T tab_en check_fn LATEST h mv pos w = Val (OK r, w') ->
+  exists m1 m2, model_of h w = Val (OK m1, w) /\ model_of mv w = Val (OK m2, w).
+Proof.
+  intros H. unfold e_move_element_here_at in H. destruct (h =? mv); [discriminate H|]. wk H. wk H. eauto.
+Qed.
+
+Theorem C06_move_partial o w w' v :
+  TablesOK T check_fn -> Inv06 T check_fn w ->
+  run_op T tab_el tab_en check_fn LATEST root_attrs o w = Val (OK v, w') ->
+  pending06 T w o = false ->
+  forall h mv, (o = OpMove h mv \/ exists pos, o = OpMoveAt h mv pos) ->
+  exists m, model_of mv w = Val (OK m, w) /\ follow_clauses w w' m mv.
+Proof.
+  intros TK HI H HP h mv [->|(pos & ->)]; cbn [run_op] in H; unfold welem in H; wk H;
+    apply wret_inv in H as (_ & ->); cbn [pending06] in HP; apply Bool.orb_false_iff in HP as (Hid & Hmod);
+    apply Bool.negb_false_iff in Hid.
+  - destruct (move_models _ _ _ _ _ E) as (m1 & m2 & H1 & H2). rewrite H1, H2 in Hmod.
+    apply Bool.negb_false_iff in Hmod. apply N.eqb_eq in Hmod. subst m2.
+    exists m1. split; [exact H2|]. eapply C06_move_local_ident; eauto.
+  - destruct (move_at_models _ _ _ _ _ _ E) as (m1 & m2 & H1 & H2). rewrite H1, H2 in Hmod.
+    apply Bool.negb_false_iff in Hmod. apply N.eqb_eq in Hmod. subst m2.
+    exists m1. split; [exact H2|]. eapply C06_move_at_local_ident; eauto.
+Qed.
+
 End Move.
